@@ -301,6 +301,8 @@ def _bt_runs(configs, variant, count, prop, timeout=1800, heavy_div=15):
     # (and more still with big nodes: those runs are spread over 4 workers so that they do not form the tail)
     def one(l, i, g):
         n = max(4, count // (heavy_div if g >= 4 else 1))
+        if l * i >= 256:
+            n = max(4, n // 3)      # a case costs several times more with big nodes (bulk loads scale with the capacities)
         w = 4 if (g >= 4 and l * i >= 256 and n >= 64) else 1
         return R("bt_%d_%d_g%d" % (l, i, g), variant, w, max(4, n // w), ["prop=" + prop], timeout=timeout)
     return [one(l, i, g) for (l, i) in configs for g in range(6)]
@@ -322,7 +324,7 @@ _BT_RULE = ("a case = 4 operation histories (2 container instantiations of the u
 PROPS["C01"] = dict(
     units=_bt_units(_BT_THOROUGH),
     quick=_bt_runs(_BT_QUICK, "plain", 1500, "C01"),
-    thorough=_bt_runs(_BT_THOROUGH, "plain", 40000, "C01", timeout=7200)
+    thorough=_bt_runs(_BT_THOROUGH, "plain", 15000, "C01", timeout=7200)
     + _bt_runs(_BT_QUICK, "asan", 1500, "C01", timeout=7200),
     rule=_BT_RULE + " After every operation: returned value / iterator rank / size / full forward and reverse "
     "iteration (canonicalised inside equal-key runs of multimaps) compared with the std container.",
